@@ -329,7 +329,8 @@ def r01_3(ck, rf):
                    'taken updates may never be sent: a path leaves the take '
                    'loop without reaching _send_updates', send)
         # the list is fresh in this iteration of the scheduler loop
-        ds = [d for d in local_defs(f.node).get(lst, [])]
+        ds = [d for d in local_defs(f.node).get(lst, [])
+              if d.kind != 'mutate']
         fresh = [d for d in ds if isinstance(d.value, (ast.List,)) and
                  not d.value.elts and within(d.stmt, rf.while_loop)]
         ck.require(bool(fresh) and all(
